@@ -75,6 +75,9 @@ fn proxy_headers(run: &mut Run) -> u64 {
     let ws = ["", " ", "\t", " \t "];
     let others = ["User-Agent: x\r\n", "X-Forwarded-Host: 9.9.9.9\r\n", "x-forwarded-for-not: 8.8.8.8\r\n"];
     // occurrences 1..=3, values per occurrence 1..=3
+    // HTTP field names are case-insensitive: occurrence o is spelled names[(o + case) % 3]; case 0 = as configured throughout
+    let names = ["X-Forwarded-For", "x-forwarded-for", "X-FORWARDED-FOR"];
+    for case in 0..3usize {
     for occ in 1..=3usize {
         for per in 1..=3usize {
             for (wi, w) in ws.iter().enumerate() {
@@ -95,7 +98,8 @@ fn proxy_headers(run: &mut Run) -> u64 {
                                     format!("{}{}{}", w, s, w)
                                 })
                                 .collect();
-                            headers.push_str(&format!("X-Forwarded-For:{}\r\n", vals.join(",")));
+                            let name = if case == 0 { names[0] } else { names[(o + case) % 3] };
+                            headers.push_str(&format!("{}:{}\r\n", name, vals.join(",")));
                         }
                         if other_pos == occ {
                             headers.push_str(others[wi % others.len()]);
@@ -107,7 +111,7 @@ fn proxy_headers(run: &mut Run) -> u64 {
                         match r {
                             Ok(Ok((_, Some(ip)))) => {
                                 if Some(ip) != last {
-                                    run.violation("proxy-header/wrong-address", format!("peer address taken from the header is {}, expected the last value of the last occurrence {} (headers {:?})", ip, last.unwrap(), headers), detail);
+                                    run.violation(if case == 0 { "proxy-header/wrong-address" } else { "proxy-header/wrong-address/name-case" }, format!("peer address taken from the header is {}, expected the last value of the last occurrence {} (headers {:?})", ip, last.unwrap(), headers), detail);
                                 } else {
                                     // the address goes through CanonicalSocketAddr with the request's port
                                     let c = CanonicalSocketAddr::new(SocketAddr::new(ip, 4242));
@@ -118,12 +122,13 @@ fn proxy_headers(run: &mut Run) -> u64 {
                                     }
                                 }
                             }
-                            other => run.violation("proxy-header/rejected", format!("well-formed proxy headers {:?} not accepted: {:?}", headers, other.map(|r| r.map(|x| x.1).map_err(|e| e.to_string()))), detail),
+                            other => run.violation(if case == 0 { "proxy-header/rejected" } else { "proxy-header/rejected/name-case" }, format!("well-formed proxy headers {:?} not accepted: {:?}", headers, other.map(|r| r.map(|x| x.1).map_err(|e| e.to_string()))), detail),
                         }
                     }
                 }
             }
         }
+    }
     }
     n
 }
@@ -413,8 +418,8 @@ fn ws_e2e(address: &str, only6: bool) -> (u64, Vec<V>, String) {
 
 pub fn main(args: &Args) -> ! {
     let mut run = Run::new(args, "exploration");
-    run.set("rule", "direct: CanonicalSocketAddr::new / get_ipv6_mapped and the ws IpVersion over IPv4, IPv6, mapped and 24 near-miss addresses x 4 ports; reverse-proxy header layouts (1-3 occurrences x 1-3 comma-separated values x 4 whitespace shapes x value kinds x position of unrelated headers) through the socket worker's parse_request; end to end: UDP (mio, io_uring) and HTTP over socket configurations {v4 only, v6 only, v6 dual-stack, both with v6-only}, WS over {v4, v6 only, v6 dual-stack}, sources 127.0.0.1/.2/.3, 192.0.2.2, ::1, fd00::2 (IPv4 hosts also through the dual-stack socket), every in-request address field value; X announces, every other source Y of the family reads the peer list, the other family scrapes. A case = one (configuration, X, field, Y) observation");
-    run.assume("real non-loopback routing is not available; header names differing only in case from the configured one are not tested");
+    run.set("rule", "direct: CanonicalSocketAddr::new / get_ipv6_mapped and the ws IpVersion over IPv4, IPv6, mapped and 24 near-miss addresses x 4 ports; reverse-proxy header layouts (1-3 occurrences x 1-3 comma-separated values x 4 whitespace shapes x value kinds x position of unrelated headers x 3 spellings of the field name differing only in letter case, per occurrence) through the socket worker's parse_request; end to end: UDP (mio, io_uring) and HTTP over socket configurations {v4 only, v6 only, v6 dual-stack, both with v6-only}, WS over {v4, v6 only, v6 dual-stack}, sources 127.0.0.1/.2/.3, 192.0.2.2, ::1, fd00::2 (IPv4 hosts also through the dual-stack socket), every in-request address field value; X announces, every other source Y of the family reads the peer list, the other family scrapes. A case = one (configuration, X, field, Y) observation");
+    run.assume("real non-loopback routing is not available");
     if args.replay.is_some() {
         eprintln!("replay: re-running the check");
     }
